@@ -303,7 +303,7 @@ class _Guards:
                     if (bare and not (kind == "return" and tail is not None)) or same_tail:
                         if self._wanted(s.test, True):
                             inner = rest[:-1] if same_tail else rest
-                            if inner and not any(isinstance(x, _FUNCS) for x in inner):
+                            if inner:
                                 new = ast.copy_location(ast.If(test=self.neg(s.test), body=inner, orelse=[]), s)
                                 block[i:] = [new] + ([tail] if same_tail else [])
                                 self.n += 1
@@ -311,14 +311,22 @@ class _Guards:
                                 break
                 # G4: `if T: body; continue|return` + rest  ->  `if T: body else: rest`  when the reference has this test as an if/else
                 if kind is not None and len(s.body) >= 2 and _is_bare(s.body[-1], kind) and rest and nnf_text(s.test) in self.known_ifelse \
-                        and not (kind == "return" and tail is not None) and not any(isinstance(x, _FUNCS) for x in rest):
+                        and not (kind == "return" and tail is not None):
                     new = ast.copy_location(ast.If(test=s.test, body=s.body[:-1], orelse=rest), s)
                     block[i:] = [new]
                     self.n += 1
                     changed = True
                     break
+                # G4': the same with the negated test: `if not T: body; return` + rest  ->  `if T: rest else: body`
+                if kind is not None and len(s.body) >= 2 and _is_bare(s.body[-1], kind) and rest and nnf_text(s.test, True) in self.known_ifelse \
+                        and nnf_text(s.test) not in self.known and not (kind == "return" and tail is not None):
+                    new = ast.copy_location(ast.If(test=self.neg(s.test), body=rest, orelse=s.body[:-1]), s)
+                    block[i:] = [new]
+                    self.n += 1
+                    changed = True
+                    break
                 # G3: `if T: <block that always leaves>` + rest  ->  `if not T: rest else: <block>`  (any terminal block: raise, return x, ...)
-                if s.body and _terminal(s.body) and rest and self._wanted(s.test, True) and not any(isinstance(x, _FUNCS) for x in rest):
+                if s.body and _terminal(s.body) and rest and self._wanted(s.test, True):
                     new = ast.copy_location(ast.If(test=self.neg(s.test), body=rest, orelse=s.body), s)
                     block[i:] = [new]
                     self.n += 1
